@@ -928,8 +928,13 @@ func evalFunctionApplication(node *jparse.FunctionApplicationNode, data reflect.
 	// evaluate it.
 	if f, ok := node.RHS.(*jparse.FunctionCallNode); ok {
 
-		f.Args = append([]jparse.Node{node.LHS}, f.Args...)
-		return evalFunctionCall(f, data, env)
+		// Don't modify the parsed function call. The syntax
+		// tree is shared by all evaluations of this expression.
+		call := &jparse.FunctionCallNode{
+			Func: f.Func,
+			Args: append([]jparse.Node{node.LHS}, f.Args...),
+		}
+		return evalFunctionCall(call, data, env)
 	}
 
 	// Evaluate both sides and return any errors.
